@@ -9,8 +9,8 @@ VARIABLES c
 TrajA == <<Pose(1, <<1, 2, 3>>), Pose(2, <<1, 5, 3>>), Pose(17, <<-1, 5, 3>>), Pose(6, <<-1, 5, 7>>)>>
 TrajB == <<Pose(9, <<0, -2, 4>>), Pose(9, <<3, -2, 4>>), Pose(21, <<3, -2, -1>>)>>
 OtherOf(tr) == [k \in DOMAIN tr |-> Pose(1, VAdd(tr[k].p, <<k, -2 * k, 1>>))]
-\* attitudes for the time-series plots: rotations about x or z only (roll / yaw), no gimbal lock
-SingleAxis == {r \in O24 : r = RID \/ AXIS[r] \in {1, 3}}
+\* attitudes for the time-series plots: all 24 (incl. the gimbal-lock ones, pitch = +-90)
+SingleAxis == O24
 TrajS(r1, r2) == <<Pose(r1, <<0, 0, 0>>), Pose(r2, <<2, 0, 0>>), Pose(RID, <<2, 3, 0>>), Pose(r1, <<2, 3, 6>>)>>
 Init == \/ \E m \in Modes, u \in {"m", "mm", "cm", "km"}, tr \in {TrajA, TrajB}, s2 \in {0, 1, 2} :
              c = [fam |-> "traj", mode |-> m, unit |-> u, traj |-> tr, other |-> OtherOf(tr), scale2 |-> s2]
